@@ -1,5 +1,6 @@
 import SimVerif.Gen.KInter
 import SimVerif.Tie.Radius
+import SimVerif.Props.C08c
 import SimVerif.Model.Geom
 import Mathlib.Tactic.Ring
 import Mathlib.Tactic.Linarith
@@ -48,8 +49,19 @@ theorem tie_u_iou (l r : UBox α) (cl sl cr sr : α) :
 /-- `is_inside` -/
 theorem tie_is_inside (q p1 p2 : Pt α) : Gen.K.is_inside q p1 p2 = isInside q p1 p2 := rfl
 
-/-- `compute_intersection` -/
-theorem tie_compute_intersection (cp1 cp2 s e : Pt α) :
-    Gen.K.compute_intersection cp1 cp2 s e = computeIntersection cp1 cp2 s e := rfl
+/-- `compute_intersection` (after the fix for F11: interpolation between the signed offsets of the two end points
+from the clip line) is the model's line-line intersection whenever the offsets differ … -/
+theorem tie_compute_intersection [IsStrictOrderedRing α] (cp1 cp2 s e : Pt α) (hD : cross cp1 s e - cross cp2 s e ≠ 0) :
+    Gen.K.compute_intersection cp1 cp2 s e = computeIntersection cp1 cp2 s e := by
+  rw [C08c.computeIntersection_lerp cp1 cp2 s e hD]
+  rfl
+
+/-- … which is the case at both call sites of the clip loop: it is called only for end points on different sides of
+the clip edge -/
+theorem tie_compute_intersection_called [IsStrictOrderedRing α] (cp1 cp2 s e : Pt α) (h : isInside cp1 s e ≠ isInside cp2 s e) :
+    Gen.K.compute_intersection cp1 cp2 s e = computeIntersection cp1 cp2 s e := by
+  apply tie_compute_intersection
+  rw [← C08c.denom_eq]
+  exact C08b.denom_ne_zero_of_sides cp1 cp2 s e h
 
 end SimVerif.Tie
